@@ -326,7 +326,7 @@ fn parse_tcp_signature(input: &str) -> IResult<&str, TcpSignature> {
         tag(","),
         alt((tag("*").map(|_| None), map_res(digit1, |s: &str| s.parse::<u8>().map(Some)))), // wscale
         tag(":"),
-        separated_list1(tag(","), parse_tcp_option),
+        separated_list0(tag(","), parse_tcp_option),
         tag(":"),
         separated_list0(tag(","), parse_quirk),
         tag(":"),
